@@ -1,7 +1,7 @@
 (* C01 Impl correspondence: the cases printed by harness/cmd/c01impl (zrnt's exported block-operation functions run
    on small states) evaluated against the Impl models of Beacon/Impl/BlockOps.v (`impl_ok`) and, directly, against
-   the Spec functions (`spec_ok`, vacuous outside the documented domain).  `findings` lists the cases that reproduce
-   a known finding on the real code (Go = Impl but Go <> Spec).
+   the Spec functions (`spec_ok`, vacuous outside the documented domain).  Both models are those of the REPAIRED code
+   (/repo 74b46c6, 9bd2c6a); `orig_shapes` counts the inputs on which the pinned snapshot differed from the Spec.
 
    Every state has exactly one validator active in the current epoch, with full effective balance, so the spec's
    proposer is that validator whatever the hash; zrnt's EpochsContext is filled by the harness accordingly. *)
@@ -202,35 +202,26 @@ Definition spec_ok (c : bcase) : bool :=
       else true
   end.
 
-(* known findings reproduced on the real code: the case is explained by the Impl model but not by the Spec *)
-Definition known_finding (c : bcase) : bool :=
+(* inputs on which the PINNED snapshot (before the fix: commits 74b46c6 and 9bd2c6a of /repo) differed from the Spec: the
+   repaired code must agree with the Spec on them; `orig_shapes` counts how many such inputs a run contained *)
+Definition orig_shape (c : bcase) : bool :=
   match c with
   | CSync ov s vals bals committee bits proposer _ _ sigkind _ =>
-      (* sync-aggregate batching: exactly the inputs on which the interleaved and the batched loop differ
-         (sync_batching_exact: the proposer is a non-participating member too poor for its penalty) *)
       let E := run_env ov sigkind in
       let st := mk_state s vals bals in
       negb (listN_eqb (spec_loop proposer (sync_pr E st) (sync_propr E st) (combine committee bits) bals)
                       (go_batched proposer (sync_pr E st) (sync_propr E st) (combine committee bits) bals))
-  | CDepCount _ _ _ count index _ _ _ => count <? index             (* deposit_count < eth1_deposit_index *)
+  | CDepCount _ _ _ count index _ _ _ => count <? index
   | _ => false
   end.
 
-(* (case number, code): bit 1 = Go differs from the Impl model; bit 2 = Go differs from the Spec on an in-domain input that
-   is NOT a known finding; known findings are reported by `findings` *)
+(* (case number, code): bit 1 = Go differs from the Impl model; bit 2 = Go differs from the Spec on an in-domain input *)
 Fixpoint mism (i : N) (cs : list bcase) : list (N * N) :=
   match cs with
   | [] => []
   | c :: r =>
-      let a := impl_ok c in
-      let b := spec_ok c || known_finding c in
-      let code := (if a then 0 else 1) + (if b then 0 else 2) in
+      let code := (if impl_ok c then 0 else 1) + (if spec_ok c then 0 else 2) in
       if code =? 0 then mism (i + 1) r else (i, code) :: mism (i + 1) r
   end.
 Definition mismatches (cs : list bcase) : list (N * N) := mism 0 cs.
-Fixpoint find_findings (i : N) (cs : list bcase) : list N :=
-  match cs with
-  | [] => []
-  | c :: r => if impl_ok c && negb (spec_ok c) && known_finding c then i :: find_findings (i + 1) r else find_findings (i + 1) r
-  end.
-Definition findings (cs : list bcase) : list N := find_findings 0 cs.
+Definition orig_shapes (cs : list bcase) : N := N.of_nat (length (filter orig_shape cs)).
